@@ -174,3 +174,12 @@ Proof.
     [exact ex2o_inv | apply (proj1 (ex_cache_ok _)) | reflexivity | | simpl; lia | exact Hf].
   intros e [Ee|[Ee|[]]]; inversion Ee; subst. reflexivity.
 Qed.
+
+Example ex_subst_quant :
+  CInv KBdd ex_terms 3 ex2o /\
+  (forall p, map (fun cap => oout (substitute_on ex_terms 3 0 cap p guards_code ex2o (RN 2) [Some (RN 1); None])) [2; 3] =
+     [(1, Some 2, Some 2, None, Some true); (0, Some 3, Some 3, Some (RN 1), Some true)]) /\
+  map (fun cap => oout (quant_on ex_terms 3 0 cap false guards_code ex3o QUnique (RN 6) (RN 3))) [6; 7; 8] =
+  [(1, Some 6, Some 5, None, Some true); (1, Some 7, Some 5, None, Some true);
+   (0, Some 8, Some 6, Some (RN 8), Some true)].
+Proof. exact (conj ex2o_inv (conj ex2o_substitute (proj1 ex3o_quant))). Qed.
